@@ -42,10 +42,28 @@ fn parse_list(s: &str) -> Option<Vec<(Desc, usize)>> {
 }
 
 pub fn check(cfg: &Cfg, cap: usize, ops: &[String], outs: &[String]) -> Vec<Violation> {
+    let mut v = check_inner(cfg, cap, ops, outs);
+    // C04: a rejected append must leave no trace. Any delivery/count mismatch that follows a rejected
+    // append or batch in the same program is (also) a violation of C04.
+    let first_reject = ops.iter().zip(outs.iter()).position(|(op, out)| (op.starts_with("append") || op.starts_with("batch")) && out.starts_with("err:"));
+    if let Some(fr) = first_reject {
+        let extra: Vec<Violation> = v
+            .iter()
+            .filter(|x| x.line > fr + 1 && matches!(x.prop, "C01" | "C02" | "C03" | "C15" | "C06"))
+            .map(|x| Violation { prop: "C04", line: x.line, msg: format!("after the rejected operation at line {}: {}", fr + 1, x.msg) })
+            .collect();
+        v.extend(extra);
+    }
+    v
+}
+
+fn check_inner(cfg: &Cfg, cap: usize, ops: &[String], outs: &[String]) -> Vec<Violation> {
     let mut v = Vec::new();
     let strict = cfg.mode == "strict";
     let mut topics: HashMap<String, TopicSt> = HashMap::new();
     let mut opened = 0usize;
+    // after a reopen, a mismatch is a failure of restart invisibility (C06) rather than of the in-process property
+    let tag = |inproc: &'static str, opened: usize| -> &'static str { if opened > 1 { "C06" } else { inproc } };
     for (k, (op, out)) in ops.iter().zip(outs.iter()).enumerate() {
         let t: Vec<&str> = op.split_whitespace().collect();
         if t.is_empty() {
@@ -101,7 +119,7 @@ pub fn check(cfg: &Cfg, cap: usize, ops: &[String], outs: &[String]) -> Vec<Viol
                 }).collect();
                 if keep.is_empty() {
                     let c = st.cands.iter().max().copied().unwrap_or(0);
-                    let prop = if floating { "C09" } else if cp { "C01" } else { "C02" };
+                    let prop = if floating { "C09" } else if cp { tag("C01", opened) } else { tag("C02", opened) };
                     v.push(Violation { prop, line, msg: format!("`{}` -> {} but entry #{} is {:?} (log len {}{})", op, out, c, st.log.get(c).map(|e| e.text()), st.log.len(), if floating { ", position floating after an AtLeastOnce reopen" } else { "" }) });
                     // resynchronise on what was actually delivered so that one defect is one report
                     if let (Some((d, _)), true) = (&got, cp) {
@@ -177,9 +195,9 @@ pub fn check(cfg: &Cfg, cap: usize, ops: &[String], outs: &[String]) -> Vec<Viol
                     let avail = &st.log[c.min(st.log.len())..];
                     let prefix_ok = st.cands.iter().any(|&c| { let a = &st.log[c.min(st.log.len())..]; got.len() <= a.len() && got.iter().zip(a.iter()).all(|((d, _), e)| d == e) });
                     if got.is_empty() && prefix_ok {
-                        v.push(Violation { prop: "C03", line, msg: format!("`{}` -> [] although {} entries are unconsumed", op, avail.len()) });
+                        v.push(Violation { prop: tag("C03", opened), line, msg: format!("`{}` -> [] although {} entries are unconsumed", op, avail.len()) });
                     } else {
-                        let prop = if floating { "C09" } else if cp { "C01" } else { "C02" };
+                        let prop = if floating { "C09" } else if cp { tag("C01", opened) } else { tag("C02", opened) };
                         v.push(Violation { prop, line, msg: format!("`{}` -> {} but the unconsumed entries start {:?}{}", op, out, avail.iter().take(got.len().max(1) + 1).map(|e| e.text()).collect::<Vec<_>>(), if floating { " (position floating after an AtLeastOnce reopen)" } else { "" }) });
                         if cp {
                             if let Some((d, _)) = got.last() {
@@ -201,7 +219,13 @@ pub fn check(cfg: &Cfg, cap: usize, ops: &[String], outs: &[String]) -> Vec<Viol
                 let ok = st.cands.iter().any(|&c| out.parse::<usize>().ok() == Some(st.log.len() - c.min(st.log.len())));
                 if !ok {
                     let c = st.cands.iter().max().copied().unwrap_or(0);
-                    v.push(Violation { prop: "C15", line, msg: format!("`{}` -> {} but appended {} - consumed {} = {}", op, out, st.log.len(), c, st.log.len() - c.min(st.log.len())) });
+                    let msg = format!("`{}` -> {} but appended {} - consumed {} = {}", op, out, st.log.len(), c, st.log.len() - c.min(st.log.len()));
+                    if opened > 1 {
+                        v.push(Violation { prop: "C06", line, msg: msg.clone() });
+                    }
+                    if opened <= 1 || strict {
+                        v.push(Violation { prop: "C15", line, msg });
+                    }
                 }
             }
             "mark" => {
